@@ -156,6 +156,13 @@ def _parsefunc_sources(tp):
                         x = x.value
                     if isinstance(x, ast.Name) and x.id == "node" and parts[-1] == "args" and len(parts) == 2:
                         ch = parts[0]
+                # getattr(node.args, "posonlyargs", [])
+                if isinstance(sub, ast.Call) and isinstance(sub.func, ast.Name) and sub.func.id == "getattr" \
+                        and len(sub.args) >= 2 and isinstance(sub.args[0], ast.Attribute) \
+                        and isinstance(sub.args[0].value, ast.Name) and sub.args[0].value.id == "node" \
+                        and sub.args[0].attr == "args" and isinstance(sub.args[1], ast.Constant) \
+                        and isinstance(sub.args[1].value, str):
+                    ch = sub.args[1].value
                 if ch and ch not in src[node.targets[0].id]:
                     src[node.targets[0].id].append(ch)
         if isinstance(node, ast.Call) and isinstance(node.func, ast.Attribute) and node.func.attr == "append" \
